@@ -390,6 +390,74 @@ theorem addAddr_inv (o o' : Oracle) (s s' : St) (a : Nat) (e : Err) (B : Nat) (h
       exact invB_modify _ _ _ _ (fun x => rfl) this
     · have := hE.2; unfold Bnd at this ⊢; simpa using this
 
+theorem instBytes_le (k : Nat) : (instBytes k).length ≤ 5 := by
+  unfold instBytes; split <;> simp
+
+theorem inst_inv (o o' : Oracle) (s s' : St) (sec k : Nat) (e : Err) (B : Nat) (hI : Inv s) (hB : Bnd s B)
+    (h : inst o s sec k = (o', s', e)) : Inv s' ∧ Bnd s' (B + 1) := by
+  unfold inst at h
+  split at h
+  · cases h; exact ⟨hI, by unfold Bnd at *; omega⟩
+  · rename_i sc hsc
+    have hroom : sc.size ≤ s.c.bufCap.getD sec 0 := by
+      have := hI.2.2 sec
+      simpa [hsc, List.getD_eq_getElem?_getD] using this
+    split at h
+    · cases h; exact ⟨hI, by unfold Bnd at *; omega⟩
+    · rename_i o1 cap' hes
+      have hr := ensureSpace_ok_room _ _ _ _ _ _ hes hroom
+      have hl := instBytes_le k
+      cases h
+      refine ⟨⟨?_, ?_⟩, ?_⟩
+      · have hV := hI.1
+        unfold InvV at *
+        simp
+        refine ⟨⟨hV.1, ?_⟩, hV.2⟩
+        simp [Section.size] at hr ⊢; omega
+      · unfold InvB
+        exact invB_set _ _ _ _ sc _ hsc (by simp [Section.size] at hr ⊢; omega) hI.2
+      · unfold Bnd at *; simp; omega
+
+theorem jmpf_inv (o o' : Oracle) (s s' : St) (sec : Nat) (e : Err) (B : Nat) (hI : Inv s) (hB : Bnd s B)
+    (h : jmpf o s sec = (o', s', e)) : Inv s' ∧ Bnd s' (B + 1) := by
+  have hB0 : Bnd s (B + 1) := by unfold Bnd at *; omega
+  unfold jmpf at h
+  split at h
+  · cases h; exact ⟨hI, hB0⟩
+  · rename_i sc hsc
+    have hroom : sc.size ≤ s.c.bufCap.getD sec 0 := by
+      have := hI.2.2 sec
+      simpa [hsc, List.getD_eq_getElem?_getD] using this
+    split at h
+    · cases h; exact ⟨hI, hB0⟩
+    · rename_i o1 cap' hes
+      have hr := ensureSpace_ok_room _ _ _ _ _ _ hes hroom
+      have hcapset : InvB ({ s with c := { s.c with bufCap := s.c.bufCap.set sec cap' } } : St) := by
+        unfold InvB
+        exact invB_capset _ _ _ _ sc hsc (by omega) hI.2
+      have hfin : ∀ (pool' : Nat),
+          Inv ({ v := { s.v with sections := s.v.sections.set sec { sc with data := sc.data ++ [0xE9, 0, 0, 0, 0] },
+                                 fixups := s.v.fixups + 1 },
+                 c := { s.c with bufCap := s.c.bufCap.set sec cap', pool := pool' },
+                 corrupt := s.corrupt || decide (sc.size + 5 > cap') } : St) ∧
+          Bnd ({ v := { s.v with sections := s.v.sections.set sec { sc with data := sc.data ++ [0xE9, 0, 0, 0, 0] },
+                                 fixups := s.v.fixups + 1 },
+                 c := { s.c with bufCap := s.c.bufCap.set sec cap', pool := pool' },
+                 corrupt := s.corrupt || decide (sc.size + 5 > cap') } : St) (B + 1) := by
+        intro pool'
+        refine ⟨⟨?_, ?_⟩, ?_⟩
+        · have hV := hI.1
+          unfold InvV at *
+          simp
+          refine ⟨⟨hV.1, ?_⟩, hV.2⟩
+          omega
+        · unfold InvB
+          exact invB_set _ _ _ _ sc _ hsc (by simp [Section.size] at hr ⊢; omega) hI.2
+        · unfold Bnd at *; simp; omega
+      dsimp only at h
+      repeat' split at h
+      all_goals (first | (cases h; exact hfin _) | (cases h; exact ⟨⟨hI.1, hcapset⟩, hB0⟩) | skip)
+
 theorem step_inv (op : Op) (o o' : Oracle) (s s' : St) (e : Err) (B : Nat) (hI : Inv s) (hB : Bnd s B)
     (hs : B + op.weight ≤ 2 ^ 40) (h : step op o s = (o', s', e)) : Inv s' ∧ Bnd s' (B + op.weight) := by
   cases op <;> simp only [step, Op.weight] at h hs ⊢
@@ -410,6 +478,8 @@ theorem step_inv (op : Op) (o o' : Oracle) (s s' : St) (e : Err) (B : Nat) (hI :
     exact ⟨⟨(freeFixup_invV _ _ _ _ _ _ hI.1 hB h).1, freeFixup_invB _ _ _ _ _ hI.2 h⟩, (freeFixup_invV _ _ _ _ _ _ hI.1 hB h).2⟩
   case addAddr a => exact addAddr_inv _ _ _ _ _ _ _ hI hB hs h
   case emit a b => exact emit_inv _ _ _ _ _ _ _ _ hI hB h
+  case inst a b => exact inst_inv _ _ _ _ _ _ _ _ hI hB h
+  case jmpf a => exact jmpf_inv _ _ _ _ _ _ _ hI hB h
   case vappend x =>
     exact ⟨⟨(vappend_invV _ _ _ _ _ _ _ hI.1 hB hs h).1, vappend_invB _ _ _ _ _ _ hI.2 h⟩, (vappend_invV _ _ _ _ _ _ _ hI.1 hB hs h).2⟩
   case vreserve n =>
